@@ -124,6 +124,11 @@ class B:
         return bytes(items).decode("utf-8")
 
 
+# fixed tails for names with two free bytes in front: short; 14 ASCII bytes (up to the full 16-byte field); 12 ASCII bytes and a
+# two-byte character (the field ends inside / right after a multi-byte character)
+_WIDE16 = ("U", "ABCDEFGHIJKLMN", "ABCDEFGHIJKL\u00e9")
+
+
 def _timer_state(b, mod):
     return mod.AcTimerState(disabled=b.flag(), hour=b.int(0, 23), minute=b.int(0, 59))
 
@@ -210,7 +215,7 @@ def build(ctx, g, cls, n, free_at=None):
                     continue
                 newfmt = b.pick(3)
                 groups = None if newfmt == 0 else (set() if newfmt == 2 else ({1, 9} | {x for x in (0, 15) if b.flag()}))
-                recs.append(ab.AcAbility(b.int(0, 3), b.text(2, concrete_tail="U"), modes, fans, b.int(0, 63), b.int(0, 63), groups, b.int(0, 15), b.int(0, 16)))
+                recs.append(ab.AcAbility(b.int(0, 3), b.text(2, concrete_tail=_WIDE16[b.pick(3)]), modes, fans, b.int(0, 63), b.int(0, 63), groups, b.int(0, 15), b.int(0, 16)))
             return E(ab.AcAbilityMessage(recs)), ("AbilityRequestALL" if n == 0 else None)
         if cls == "AbilityRequest":
             k = b.pick(2)
@@ -219,7 +224,7 @@ def build(ctx, g, cls, n, free_at=None):
             names = {}
             for i in range(n):
                 key = [(1, 3), (2, 12)][i % 2][b.pick(2)]
-                names[key] = b.text(3, concrete_tail="x" if i else "")
+                names[key] = b.text(3, concrete_tail=("x" if i else "") + ("", "ABCD" if i else "ABCDE")[b.pick(2)])      # up to the full 8-byte field
             return E(nm.GroupNamesMessage(names)), ("NamesRequestALL" if n == 0 else None)
         if cls == "NamesRequest":
             k = b.pick(2)
@@ -316,7 +321,7 @@ def build(ctx, g, cls, n, free_at=None):
                 if not free(i):
                     recs.append(ab.AcAbility(i % 16, "FIXED", 0, 2, {m: True for m in ab.AcModeControl}, {m: True for m in ab.AcFanSpeedControl}, 16, 30, 17, 31))
                     continue
-                recs.append(ab.AcAbility(b.int(0, 15), b.text(2, concrete_tail="U"), b.int(0, 15), b.int(0, 16), modes, fans,
+                recs.append(ab.AcAbility(b.int(0, 15), b.text(2, concrete_tail=_WIDE16[b.pick(3)]), b.int(0, 15), b.int(0, 16), modes, fans,
                                          b.int(0, 63), b.int(0, 63), b.int(0, 63), b.int(0, 63)))
             return E(ab.AcAbilityMessage(recs)), ("AbilityRequestALL" if n == 0 else None)
         if cls == "AbilityRequest":
